@@ -122,9 +122,10 @@ type Scenario struct {
 	NoBootstrap  []string              `json:"no_bootstrap,omitempty"`   // voters whose Bootstrap call is left to the program
 	LatencyUS    int                   `json:"latency_us,omitempty"`
 	JitterUS     int                   `json:"jitter_us,omitempty"`
-	TickMS       int                   `json:"tick_ms,omitempty"`  // timed replay (RaftTimed.tla): virtual time per Tick
-	ETMS         int                   `json:"et_ms,omitempty"`    // election timeout (default 300)
-	LeaseMS      int                   `json:"lease_ms,omitempty"` // lease duration (default 100)
+	SnapWindow   bool                  `json:"snap_window,omitempty"` // replay of Raft.tla with Env:SnapWindow: takeSnapshot parks after publication
+	TickMS       int                   `json:"tick_ms,omitempty"`     // timed replay (RaftTimed.tla): virtual time per Tick
+	ETMS         int                   `json:"et_ms,omitempty"`       // election timeout (default 300)
+	LeaseMS      int                   `json:"lease_ms,omitempty"`    // lease duration (default 100)
 }
 
 type Runner struct {
